@@ -290,6 +290,15 @@ func (s *Scope) has(name string) bool {
 	return CurrentPackage.Has(name)
 }
 
+// localHas returns true if the variable is bound in the scope itself. The
+// parents of the scope are not considered.
+func (s *Scope) localHas(name string) (has bool) {
+	s.locker.Lock()
+	_, has = s.Vars[strings.ToLower(name)]
+	s.locker.Unlock()
+	return
+}
+
 // Bound returns true if the variable is bound.
 func (s *Scope) Bound(sym Symbol) bool {
 	return s.bound(strings.ToLower(string(sym)))
